@@ -35,7 +35,8 @@ COMPONENTS = {"real": ["clustering/kmeans.py (KMeans.fit, kmeansplusplus_centers
               "stub": ["multiprocessing.Pool -> sim/simpool.py (seeded pool size, chunking, completion order; pickling isolation)",
                        "np.random / random seeds (owned by the simulator)", "monitor_distances callback (environment: cancels at a seeded iteration)",
                        "reference DTW for the nearest-mean oracle: sim/models/dtw_ref.py"]}
-ASSUMPTIONS = ["bounds: mostly k 1..5, n = k+1..12 series of length 2..8 (one history in 10: k 4..8, n up to 25, length <= 13, max_it <= 9), ndim 1..2, max_it 0..5, max_dba_it 1..3, thr in {default, 1e-4, 0.05, 0.5, 2}, data amplitude in {1, 1e-3, 1e-4}",
+ASSUMPTIONS = ["one history in three: the caller keeps one collection object for all fits and refills it in place between them",
+               "bounds: mostly k 1..5, n = k+1..12 series of length 2..8 (one history in 10: k 4..8, n up to 25, length <= 13, max_it <= 9), ndim 1..2, max_it 0..5, max_dba_it 1..3, thr in {default, 1e-4, 0.05, 0.5, 2}, data amplitude in {1, 1e-3, 1e-4}",
                "empty clusters in the returned dict are allowed (with fewer distinct series than k they are unavoidable); keys must still be exactly 0..k-1",
                "nearest-mean comparison uses rel. tol 1e-9 on the reference distances; serial vs parallel comparison is exact (float bits)"]
 
@@ -92,7 +93,8 @@ def gen_history(st):
             programs[s].append({"op": "fit", "model": mi, "npseed": rng.below(2 ** 31), "pyseed": rng.below(2 ** 31),
                                 "stop_at": rng.choice([None, None, 1, 1, 2, 3]), "parallel": rng.below(2) == 0, "poolseed": rng.u64()})
     ops = sessions.interleave(st("sessions"), programs)
-    return {"setup": {"data": data, "ndim": ndim}, "ops": ops}
+    # one history in three: the caller keeps ONE collection object for all fits and refills it in place
+    return {"setup": {"data": data, "ndim": ndim, "inplace": rng.below(3) == 0}, "ops": ops}
 
 
 class _Probe(logging.Handler):
@@ -110,9 +112,16 @@ class _Probe(logging.Handler):
                 self.counts[name] = self.counts.get(name, 0) + 1
 
 
+_CALLER = {"buf": None}
+
+
 def _series(dat, ndim):
     import numpy as np
-    return [np.array(s, dtype=np.double) for s in dat["series"]]
+    out = [np.array(s, dtype=np.double) for s in dat["series"]]
+    if _CALLER["buf"] is not None:
+        _CALLER["buf"][:] = out      # the caller's one collection object: same list, new content
+        return _CALLER["buf"]
+    return out
 
 
 def _mk_model(spec, k):
@@ -234,6 +243,9 @@ def execute(history):
             v["op"] = opi
             viols.append(v)
 
+    _CALLER["buf"] = [] if setup.get("inplace") else None
+    if setup.get("inplace"):
+        bump("fault:collection_object_refilled_in_place")
     try:
         for opi, op in enumerate(history["ops"]):
             kind = op["op"]
